@@ -36,14 +36,16 @@ func main() {
 	}
 	var plan []chainops.Search
 	if r.Quick() {
+		// ordered by value per unit of work: the deadline cuts the tail of this list on a busy machine
 		plan = []chainops.Search{
-			{World: "small", Alpha: "staking", Depth: 3}, {World: "small", Alpha: "full", Depth: 2}, {World: "dust", Alpha: "staking", Depth: 2},
-			{World: "small/p1", Alpha: "staking", Depth: 2}, {World: "small", Alpha: "staking", Depth: 4},
+			{World: "small", Alpha: "staking", Depth: 2}, {World: "dust", Alpha: "staking", Depth: 2}, {World: "small", Alpha: "staking", Depth: 3},
+			{World: "small", Alpha: "full", Depth: 2}, {World: "small/p1", Alpha: "staking", Depth: 2}, {World: "dust", Alpha: "staking", Depth: 3},
+			{World: "small", Alpha: "staking", Depth: 4},
 		}
 	} else {
 		plan = []chainops.Search{
-			{World: "small", Alpha: "staking", Depth: 4}, {World: "small", Alpha: "full", Depth: 3}, {World: "dust", Alpha: "staking", Depth: 4},
-			{World: "small/p1", Alpha: "staking", Depth: 4}, {World: "small", Alpha: "staking", Depth: 5},
+			{World: "small", Alpha: "staking", Depth: 4}, {World: "dust", Alpha: "staking", Depth: 4}, {World: "small", Alpha: "full", Depth: 3},
+			{World: "small/p1", Alpha: "staking", Depth: 4}, {World: "nearmax", Alpha: "staking", Depth: 3}, {World: "small", Alpha: "staking", Depth: 5},
 		}
 	}
 	chainops.RunPlan(r, "C12", plan)
